@@ -27,6 +27,9 @@ type IngestScenario struct {
 	Kmig     int  `json:"kmig"`
 	// Second directed family: a row is added by another producer between the expander's usage sample and its write lock.
 	SampleRace bool `json:"samplerace"`
+	// Third directed family: the consumer is busy inside the sink (it holds no buffer reference) while ONE producer fills and
+	// expands the buffer several times; afterwards every row is processed in emission order (no admitted deviation here).
+	Stalled bool `json:"stalled"`
 }
 
 // RunIngest runs one ingest scenario and returns its trace.
@@ -63,7 +66,7 @@ func RunIngest(sc IngestScenario) (evs []Ev, inconclusive string) {
 			s.Stop()
 		}
 	}()
-	in.Log(Ev{"tr": sc.Tr, "e": "reset", "strategy": sc.Strategy, "data": sc.Data, "max": pc.BufferConfig.MaxBufferSize, "producers": sc.Producers, "rows": sc.Rows, "directed": b2i(sc.Directed || sc.SampleRace)})
+	in.Log(Ev{"tr": sc.Tr, "e": "reset", "strategy": sc.Strategy, "data": sc.Data, "max": pc.BufferConfig.MaxBufferSize, "producers": sc.Producers, "rows": sc.Rows, "directed": b2i(sc.Directed || sc.SampleRace), "strict": b2i(sc.Stalled)})
 	perturb := func() {
 		if !sc.Perturb {
 			return
@@ -93,7 +96,7 @@ func RunIngest(sc IngestScenario) (evs []Ev, inconclusive string) {
 	var firstSink sync.Once
 	sinkParked := make(chan struct{}, 1)
 	s.AddSyncSink(func(rs []map[string]any) {
-		if sc.SampleRace { // the consumer is BUSY in the sink while the buffer is expanded: it does not hold the old reference
+		if sc.SampleRace || sc.Stalled { // the consumer is BUSY in the sink while the buffer is expanded: it does not hold the old reference
 			firstSink.Do(func() {
 				sinkParked <- struct{}{}
 				<-sinkGate
@@ -113,7 +116,18 @@ func RunIngest(sc IngestScenario) (evs []Ev, inconclusive string) {
 		s.Emit(map[string]any{"id": i, "p": p})
 	}
 	const T = 10 * time.Second
-	if sc.SampleRace {
+	if sc.Stalled {
+		emit(1, 1)
+		select {
+		case <-sinkParked: // the consumer sits in the sink with row 1: it is not receiving and holds no buffer reference
+		case <-time.After(T):
+			return in.Events(), "consumer did not take the first row"
+		}
+		for i := 2; i <= sc.Rows; i++ {
+			emit(1, i)
+		}
+		close(sinkGate)
+	} else if sc.SampleRace {
 		if !in.WaitFor(T, func() bool { return in.NWaiting("proc.ref") > 0 }) {
 			return in.Events(), "consumer did not reach proc.ref"
 		}
